@@ -3,10 +3,10 @@ package main
 // C23: the etcd and redis metadata stores behave identically (structural siblings: constants, failure classes, atomic creates).
 
 import (
-	"go/token"
 	"fmt"
 	"go/ast"
 	"go/constant"
+	"go/token"
 	"go/types"
 	"sort"
 	"strings"
